@@ -31,6 +31,11 @@ type SASLConfig struct {
 	MalformServerFinal bool  // SCRAM: send a server-final message that is neither v=... nor e=...
 	ServerFinalError   bool  // SCRAM: send "e=other-error" as server-final with error code 0 (in-band SCRAM error)
 	ServerIterations   int   // SCRAM: iteration count announced and used by the server when != 0 (e.g. below a client minimum)
+	// TruncateRawAtStep: in a raw (handshake v0) exchange the answer to authenticate round n announces TruncateRawAnnounce
+	// bytes, delivers only TruncateRawSend of them and the connection is closed (the broker died while answering).
+	TruncateRawAtStep   int
+	TruncateRawAnnounce int
+	TruncateRawSend     int
 	// EarlyUnknownUser makes the SCRAM server reject an unknown user at the
 	// client-first message (what Kafka brokers do) instead of at the proof.
 	EarlyUnknownUser bool
@@ -231,6 +236,17 @@ func (c *Cluster) serveRawSASL(b *Broker, sc *memnet.ServerConn, st *connState, 
 	if cfg.CloseAtStep != 0 && cfg.CloseAtStep == st.step+1 {
 		st.step++
 		c.upd(func() { ex.Outcome = "dropped-before" })
+		c.authEvent(AuthEvent{ConnID: sc.ID(), Mech: st.saslMech, Verdict: "closed", Step: st.step, Raw: true, ReqSeq: ex.Seq})
+		sc.MarkDead()
+		return false
+	}
+	if cfg.TruncateRawAtStep != 0 && cfg.TruncateRawAtStep == st.step+1 {
+		st.step++
+		var lb [4]byte
+		binary.BigEndian.PutUint32(lb[:], uint32(cfg.TruncateRawAnnounce))
+		part := append(lb[:], make([]byte, cfg.TruncateRawSend)...)
+		sc.Write(part)
+		c.upd(func() { ex.Outcome = "cut"; ex.RespBytes = 4 + cfg.TruncateRawAnnounce; ex.CutAt = len(part) })
 		c.authEvent(AuthEvent{ConnID: sc.ID(), Mech: st.saslMech, Verdict: "closed", Step: st.step, Raw: true, ReqSeq: ex.Seq})
 		sc.MarkDead()
 		return false
